@@ -16,7 +16,9 @@ import (
 //     define the name (as a value resp. as a type) or defines it without `pub`;
 //   * only modules reachable from the entry through import statements are part of the program;
 //     each of them is initialised exactly once before main runs;
-//   * a function runs its own body: every name in it means what it means in the defining module.
+//   * a function runs its own body: every name in it means what it means in the defining module;
+//     that includes the module's singletons (module-level state that cannot be imported at all):
+//     a function which extracts or names `$K` works on the `$K` of its defining module.
 // ---------------------------------------------------------------------------------------------
 
 // BadItem is one illegal name of an import statement.
@@ -123,6 +125,9 @@ func LinkGraph(g *Graph) *Link {
 		vis := map[string]binding{}
 		var seq []string
 		for _, it := range m.Items {
+			if it.Kind == "sing" {
+				continue // singletons are not names of the value or type namespace and cannot be imported
+			}
 			k := key(it.Name, it.Kind == "type")
 			vis[k] = binding{Origin: m.Name, Item: it}
 			seq = append(seq, k)
@@ -274,6 +279,7 @@ func (lk *Link) mainPrints(g *Graph) []binding {
 // main prints. Only defined for accepted graphs.
 func (lk *Link) Expected(g *Graph) string {
 	glob := map[string]string{}
+	sing := map[string]string{} // module.K -> the log of the module's singleton K
 	for _, m := range g.Mods {
 		for _, it := range m.Items {
 			if it.Kind == "let" {
@@ -293,6 +299,10 @@ func (lk *Link) Expected(g *Graph) string {
 			b := lk.vis[origin][key(w, false)]
 			glob[b.Origin+"."+b.Item.Name] += "'"
 		}
+		sings := g.mod(origin).sings()
+		for _, s := range sings {
+			sing[origin+"."+s.Name] += origin + "." + fn.Name + ";"
+		}
 		var parts []string
 		for _, r := range lk.refs(g, origin, fn) {
 			switch r.Item.Kind {
@@ -303,6 +313,9 @@ func (lk *Link) Expected(g *Graph) string {
 			case "type":
 				parts = append(parts, r.Item.Name+"@"+r.Origin)
 			}
+		}
+		for _, s := range sings {
+			parts = append(parts, "["+sing[origin+"."+s.Name]+"]")
 		}
 		return origin + "." + fn.Name + "(" + strings.Join(parts, ",") + ")"
 	}
@@ -315,6 +328,9 @@ func (lk *Link) Expected(g *Graph) string {
 			sb.WriteString(glob[b.Origin+"."+b.Item.Name])
 		}
 		sb.WriteByte('\n')
+	}
+	for _, s := range g.Mods[0].sings() {
+		sb.WriteString("$" + s.Name + "=" + sing[g.Mods[0].Name+"."+s.Name] + "\n")
 	}
 	sb.WriteString("end\n")
 	return sb.String()
@@ -397,7 +413,7 @@ func Hazards(g *Graph, lk *Link) []string {
 		names := []Item{{Name: "main", Kind: "fn"}}
 		names = append(names, m.Items...)
 		for _, it := range names {
-			if it.Kind == "type" {
+			if it.Kind == "type" || it.Kind == "sing" {
 				continue
 			}
 			k := it.Kind + ":" + m.Name + "_" + it.Name
